@@ -30,3 +30,402 @@ Proof.
   split; [exact A|]. split; [exact B|]. split; [exact C|].
   exact (trr_quiescent_complete trr_head_size h lay H0 H1 Hlay sizes Hs).
 Qed.
+
+(* ------------------------------------------------------------------ every interleaving of
+   the writer (growth of the file, exit with code 0) with every observation (check_poll /
+   getsize) of get_gromacs_frames *)
+
+Lemma trr_drive_cons rc head lay m s e r :
+  trr_drive rc head lay m ((s, e) :: r) =
+  (fst (trr_drive rc head lay (fst (trr_step rc head lay m s e)) r),
+   snd (trr_step rc head lay m s e) ++ snd (trr_drive rc head lay (fst (trr_step rc head lay m s e)) r)).
+Proof.
+  cbn [trr_drive]. destruct (trr_step rc head lay m s e) as [m1 ev1]. cbn [fst snd].
+  destruct (trr_drive rc head lay m1 r) as [m2 ev2]. reflexivity.
+Qed.
+
+Lemma trr_drive_app rc head lay : forall a b m,
+  trr_drive rc head lay m (a ++ b) =
+  (fst (trr_drive rc head lay (fst (trr_drive rc head lay m a)) b),
+   snd (trr_drive rc head lay m a) ++ snd (trr_drive rc head lay (fst (trr_drive rc head lay m a)) b)).
+Proof.
+  induction a as [|[s e] a IH]; intros b m.
+  - cbn [app trr_drive fst snd]. now destruct (trr_drive rc head lay m b).
+  - rewrite <- app_comm_cons, !trr_drive_cons, IH. cbn [fst snd]. now rewrite app_assoc.
+Qed.
+
+Lemma trr_drive_done rc head lay st : forall obs,
+  trr_drive rc head lay (mkM PcDone st) obs = (mkM PcDone st, []).
+Proof.
+  induction obs as [|[s e] obs IH]; [reflexivity|].
+  rewrite trr_drive_cons. cbn [trr_step m_pc fst snd]. now rewrite IH.
+Qed.
+
+Section TrrSched.
+Variables head h : Z.
+Variable lay : layout.
+Hypothesis h_pos : 0 < h.
+Hypothesis h_head : h <= head.
+Hypothesis Hlay : lay_ok h lay.
+Local Notation n := (length lay).
+Local Notation total := (layout_size lay).
+
+Lemma off_lt_S k : (k < n)%nat -> off lay k < off lay (S k).
+Proof.
+  intros Hk. destruct (nth_ex h lay Hlay k Hk) as (d & Hn & Hd). rewrite (off_S h lay k d Hn). lia.
+Qed.
+
+Lemma off_mono : forall k j, (j <= k)%nat -> (k <= n)%nat -> off lay j <= off lay k.
+Proof.
+  induction k as [|k IH]; intros j Hj Hk.
+  - replace j with 0%nat by lia. lia.
+  - destruct (Nat.eq_dec j (S k)) as [->|Hne]; [lia|].
+    pose proof (IH j ltac:(lia) ltac:(lia)). pose proof (off_lt_S k ltac:(lia)). lia.
+Qed.
+
+Lemma off_strict j k : (j < k)%nat -> (k <= n)%nat -> off lay j < off lay k.
+Proof.
+  intros Hj Hk. pose proof (off_lt_S j ltac:(lia)). pose proof (off_mono k (S j) ltac:(lia) Hk). lia.
+Qed.
+
+(* [fin] bytes are on disk in the end; exactly the first [kf] frames lie completely inside *)
+Variable fin : Z.
+Variable kf : nat.
+Hypothesis Hfin_tot : fin <= total.
+Hypothesis Hkf : (kf <= n)%nat.
+Hypothesis Hkf_lo : off lay kf <= fin.
+Hypothesis Hkf_hi : (kf < n)%nat -> fin < off lay (S kf).
+
+Lemma le_kf k : (k <= n)%nat -> off lay k <= fin -> (k <= kf)%nat.
+Proof.
+  intros Hk Ho. destruct (Nat.le_gt_cases k kf) as [|Hgt]; [assumption|].
+  pose proof (Hkf_hi ltac:(lia)). pose proof (off_mono k (S kf) ltac:(lia) Hk). lia.
+Qed.
+
+Lemma lt_kf k d : nth_error lay k = Some (h, d) -> off lay k + h + d <= fin -> (k < kf)%nat.
+Proof.
+  intros Hn Ho. pose proof (nth_lt h lay k d Hn). rewrite <- (off_S h lay k d Hn) in Ho.
+  pose proof (le_kf (S k) ltac:(lia) Ho). lia.
+Qed.
+
+Lemma eq_kf k d : nth_error lay k = Some (h, d) -> off lay k <= fin -> fin < off lay k + h + d -> k = kf.
+Proof.
+  intros Hn Ho Hlt. pose proof (nth_lt h lay k d Hn) as Hk. rewrite <- (off_S h lay k d Hn) in Hlt.
+  pose proof (le_kf k ltac:(lia) Ho). destruct (Nat.eq_dec k kf) as [|Hne]; [assumption|].
+  pose proof (off_mono kf (S k) ltac:(lia) Hkf). lia.
+Qed.
+
+Lemma eq_kf_end k : (k <= n)%nat -> off lay k <= fin -> fin <= off lay k -> k = kf.
+Proof.
+  intros Hk H1 H2. pose proof (le_kf k Hk H1). destruct (Nat.eq_dec k kf) as [|Hne]; [assumption|].
+  pose proof (off_strict k kf ltac:(lia) Hkf). lia.
+Qed.
+
+Lemma fin_nonneg : 0 <= fin.
+Proof. pose proof (off_mono kf 0%nat ltac:(lia) Hkf). rewrite off_0 in *. lia. Qed.
+
+(* a read event is safe, or it is the attempt of read_remaining_trr to read the frame that
+   is only partly on disk when GROMACS ended with code 0 inside a frame *)
+Definition ev_ok (e : trr_event) : Prop :=
+  ev_safe h lay e \/ (e = TGarbage (off lay kf) /\ off lay kf < fin).
+
+Lemma ev_safe_ok l : Forall (ev_safe h lay) l -> Forall ev_ok l.
+Proof. apply Forall_impl. intros e He. now left. Qed.
+
+Lemma trr_remaining_fit : forall fuel k, (k <= kf)%nat -> (n - k < fuel)%nat ->
+  Forall ev_ok (snd (trr_remaining fuel lay (off lay k) fin)) /\
+  yields (snd (trr_remaining fuel lay (off lay k) fin)) = seq k (kf - k).
+Proof.
+  induction fuel as [|f IH]; intros k Hk Hf; [lia|]. cbn [trr_remaining].
+  pose proof (off_mono kf k Hk Hkf) as Hok.
+  destruct (Z.geb_spec (off lay k) fin) as [Hge|Hlt].
+  - assert (k = kf) by (apply eq_kf_end; lia). subst k. rewrite Nat.sub_diag. cbn. auto.
+  - assert (Hkn : (k < n)%nat).
+    { destruct (Nat.eq_dec k n) as [->|]; [rewrite off_all in Hlt; lia|lia]. }
+    destruct (nth_ex h lay Hlay k Hkn) as (d & Hn & Hd). rewrite (frame_at_off h lay h_pos Hlay k d Hn).
+    destruct (Z.leb_spec (off lay k + h + d) fin) as [Hfit|Hno].
+    + pose proof (lt_kf k d Hn Hfit) as Hlk. rewrite <- (off_S h lay k d Hn).
+      destruct (IH (S k) ltac:(lia) ltac:(lia)) as (Hsafe & Hy).
+      destruct (trr_remaining f lay (off lay (S k)) fin) as [b ev]. cbn [fst snd] in *. split.
+      * constructor; [left; cbn; split; [lia|exists k; auto]|].
+        constructor; [left; cbn; split; [lia|exists k, d; auto]|].
+        constructor; [left; exact Hkn|exact Hsafe].
+      * replace (kf - k)%nat with (S (kf - S k)) by lia. cbn [seq]. rewrite <- Hy. reflexivity.
+    + assert (k = kf) by (apply (eq_kf k d Hn); lia). subst k. rewrite Nat.sub_diag. cbn [fst snd]. split.
+      * constructor; [right; split; [reflexivity|lia]|constructor].
+      * reflexivity.
+Qed.
+
+(* ---- while GROMACS is running *)
+Inductive minv : trr_m -> nat -> Prop :=
+| MA pc k hs : pc = PcPoll \/ pc = PcHdrSize -> (k <= n)%nat -> hs = 0 \/ hs = h -> off lay k <= fin ->
+    minv (mkM pc (mkT (off lay k) hs None false)) k
+| MP pc k d : pc = PcDataSize \/ pc = PcGuardPoll -> nth_error lay k = Some (h, d) -> off lay k + h <= fin ->
+    minv (mkM pc (mkT (off lay k + h) h (Some (k, d)) false)) k.
+
+Lemma minv_le_kf m k : minv m k -> (k <= kf)%nat.
+Proof.
+  destruct 1 as [pc k hs _ Hk _ Ho|pc k d _ Hn Ho].
+  - now apply le_kf.
+  - pose proof (nth_lt h lay k d Hn). apply le_kf; lia.
+Qed.
+
+Lemma step_running m k size : minv m k -> size <= fin ->
+  exists k', minv (fst (trr_step true head lay m size false)) k' /\
+             Forall (ev_safe h lay) (snd (trr_step true head lay m size false)) /\
+             (k <= k')%nat /\ yields (snd (trr_step true head lay m size false)) = seq k (k' - k).
+Proof.
+  intros Hinv Hsz.
+  destruct Hinv as [pc k hs [->| ->] Hk Hhs Ho|pc k d [->| ->] Hn Ho]; unfold trr_step; cbn [m_pc m_st].
+  - exists k. cbn [fst snd]. split; [apply MA; auto|]. split; [constructor|].
+    split; [lia|]. rewrite Nat.sub_diag. reflexivity.
+  - unfold trr_observe; cbn [t_bad t_pend t_hs t_br].
+    set (guard := if hs =? 0 then head else hs).
+    assert (Hg : h <= guard) by (unfold guard; destruct Hhs as [-> | ->]; cbn;
+                                  [lia|destruct (Z.eqb_spec h 0); lia]).
+    destruct (Z.geb_spec size (off lay k + guard)) as [Hge|Hlt].
+    + assert (Hkn : (k < n)%nat) by (apply (off_room h lay h_pos k size); lia).
+      destruct (nth_ex h lay Hlay k Hkn) as (d & Hn & Hd). rewrite (frame_at_off h lay h_pos Hlay k d Hn).
+      destruct (Z.leb_spec (off lay k + h) size) as [_|?]; [|lia].
+      exists k. cbn [fst snd t_bad t_pend]. split; [apply MP; auto; lia|]. split.
+      * constructor; [|constructor]. cbn. split; [lia|]. exists k. auto.
+      * split; [lia|]. rewrite Nat.sub_diag. reflexivity.
+    + exists k. cbn [fst snd t_bad t_pend]. split; [apply MA; auto|]. split; [constructor|].
+      split; [lia|]. rewrite Nat.sub_diag. reflexivity.
+  - unfold trr_observe; cbn [t_bad t_pend t_hs t_br].
+    destruct (lay_ok_nth h lay Hlay k h d Hn) as [_ Hd]. pose proof (nth_lt h lay k d Hn) as Hkn.
+    destruct (Z.geb_spec size (off lay k + h + d)) as [Hge|Hlt].
+    + exists (S k). cbn [fst snd t_pend]. split.
+      * rewrite <- (off_S h lay k d Hn). apply MA; [now left|lia|now right|rewrite (off_S h lay k d Hn); lia].
+      * split.
+        -- constructor; [|constructor; [exact Hkn|constructor]]. cbn. split; [lia|]. exists k, d. auto.
+        -- split; [lia|]. replace (S k - k)%nat with 1%nat by lia. reflexivity.
+    + exists k. cbn [fst snd t_pend]. split; [apply MP; auto|]. split; [constructor|].
+      split; [lia|]. rewrite Nat.sub_diag. reflexivity.
+  - exists k. cbn [fst snd]. split; [apply MP; auto|]. split; [constructor|].
+    split; [lia|]. rewrite Nat.sub_diag. reflexivity.
+Qed.
+
+Lemma drive_running : forall sizes m k, minv m k -> Forall (fun s => s <= fin) sizes ->
+  exists k', minv (fst (trr_drive true head lay m (map (fun s => (s, false)) sizes))) k' /\
+             Forall (ev_safe h lay) (snd (trr_drive true head lay m (map (fun s => (s, false)) sizes))) /\
+             (k <= k')%nat /\
+             yields (snd (trr_drive true head lay m (map (fun s => (s, false)) sizes))) = seq k (k' - k).
+Proof.
+  induction sizes as [|s sizes IH]; intros m k Hinv Hsz.
+  - exists k. cbn. rewrite Nat.sub_diag. repeat split; auto.
+  - inversion Hsz as [|? ? Hs Hrest]; subst. cbn [map]. rewrite trr_drive_cons. cbn [fst snd].
+    destruct (step_running m k s Hinv Hs) as (k1 & Hinv1 & Hsafe1 & Hk1 & Hy1).
+    destruct (IH _ k1 Hinv1 Hrest) as (k2 & Hinv2 & Hsafe2 & Hk2 & Hy2).
+    exists k2. split; [exact Hinv2|]. split; [apply Forall_app; auto|]. split; [lia|].
+    rewrite yields_app, Hy1, Hy2. now apply seq_join.
+Qed.
+
+(* ---- after GROMACS has ended: every observation is (fin, ended) *)
+Definition fin_ok (k : nat) (r : trr_m * list trr_event) : Prop :=
+  m_pc (fst r) = PcDone /\ t_bad (m_st (fst r)) = false /\ Forall ev_ok (snd r) /\
+  yields (snd r) = seq k (kf - k).
+
+Local Notation E := (fin, true).
+
+Lemma fin_FinSize k hs j : (k <= n)%nat -> off lay k <= fin ->
+  fin_ok k (trr_drive true head lay (mkM PcFinSize (mkT (off lay k) hs None false)) (repeat E (2 + j))).
+Proof.
+  intros Hk Ho. cbn [repeat Nat.add]. rewrite trr_drive_cons. unfold trr_step. cbn [m_pc m_st t_br].
+  destruct (Z.gtb_spec (fin - off lay k) 0) as [Hgt|Hle]; cbn [fst snd app].
+  - rewrite trr_drive_cons. unfold trr_step. cbn [m_pc m_st t_br t_hs t_bad].
+    pose proof (le_kf k Hk Ho) as Hlk.
+    destruct (trr_remaining_fit (S n) k Hlk ltac:(lia)) as (Hsafe & Hy).
+    destruct (trr_remaining (S n) lay (off lay k) fin) as [b ev]. cbn [fst snd] in *.
+    rewrite trr_drive_done. unfold fin_ok. cbn [fst snd m_pc m_st t_bad]. rewrite app_nil_r.
+    repeat split; assumption.
+  - assert (k = kf) by (apply eq_kf_end; lia). subst k.
+    rewrite trr_drive_done. unfold fin_ok. cbn [fst snd m_pc m_st t_bad]. rewrite Nat.sub_diag.
+    repeat split; constructor.
+Qed.
+
+Lemma fin_Poll k hs j : (k <= n)%nat -> off lay k <= fin ->
+  fin_ok k (trr_drive true head lay (mkM PcPoll (mkT (off lay k) hs None false)) (repeat E (3 + j))).
+Proof.
+  intros Hk Ho. change (3 + j)%nat with (S (2 + j)). cbn [repeat]. rewrite trr_drive_cons.
+  cbn [trr_step m_pc m_st fst snd app]. now apply fin_FinSize.
+Qed.
+
+Lemma fin_Data k d j : nth_error lay k = Some (h, d) -> off lay k + h <= fin ->
+  fin_ok k (trr_drive true head lay (mkM PcDataSize (mkT (off lay k + h) h (Some (k, d)) false)) (repeat E (4 + j))).
+Proof.
+  intros Hn Ho. destruct (lay_ok_nth h lay Hlay k h d Hn) as [_ Hd]. pose proof (nth_lt h lay k d Hn) as Hkn.
+  change (4 + j)%nat with (S (3 + j)). cbn [repeat]. rewrite trr_drive_cons.
+  unfold trr_step. cbn [m_pc m_st]. unfold trr_observe. cbn [t_bad t_pend t_hs t_br].
+  destruct (Z.geb_spec fin (off lay k + h + d)) as [Hge|Hlt]; cbn [fst snd t_pend].
+  - pose proof (lt_kf k d Hn ltac:(lia)) as Hlk. pose proof (off_S h lay k d Hn) as HS.
+    rewrite <- HS.
+    destruct (fin_Poll (S k) h j ltac:(lia) ltac:(lia)) as (A & B & C & D).
+    unfold fin_ok. cbn [fst snd].
+    split; [exact A|]. split; [exact B|]. split.
+    + cbn [app]. constructor; [left; cbn; split; [lia|exists k, d; auto]|].
+      constructor; [left; exact Hkn|exact C].
+    + rewrite yields_app, D. replace (kf - k)%nat with (S (kf - S k)) by lia. reflexivity.
+  - assert (k = kf) by (apply (eq_kf k d Hn); lia). subst k.
+    change (3 + j)%nat with (S (S (1 + j))). cbn [repeat]. rewrite trr_drive_cons.
+    cbn [trr_step m_pc m_st fst snd app]. rewrite trr_drive_cons.
+    unfold trr_step. cbn [m_pc m_st t_pend t_br].
+    destruct (Z.ltb_spec fin (off lay kf + h + d)) as [_|?]; [|lia]. cbn [fst snd app].
+    rewrite trr_drive_done. unfold fin_ok. cbn [fst snd m_pc m_st t_bad]. rewrite Nat.sub_diag.
+    repeat split; constructor.
+Qed.
+
+Lemma fin_GuardPoll k d j : nth_error lay k = Some (h, d) -> off lay k + h <= fin ->
+  fin_ok k (trr_drive true head lay (mkM PcGuardPoll (mkT (off lay k + h) h (Some (k, d)) false)) (repeat E (6 + j))).
+Proof.
+  intros Hn Ho. destruct (lay_ok_nth h lay Hlay k h d Hn) as [_ Hd].
+  change (6 + j)%nat with (S (S (4 + j))). cbn [repeat]. rewrite trr_drive_cons.
+  cbn [trr_step m_pc m_st fst snd app]. rewrite trr_drive_cons.
+  unfold trr_step. cbn [m_pc m_st t_pend t_br].
+  destruct (Z.ltb_spec fin (off lay k + h + d)) as [Hlt|Hge]; cbn [fst snd app].
+  - assert (k = kf) by (apply (eq_kf k d Hn); lia). subst k.
+    rewrite trr_drive_done. unfold fin_ok. cbn [fst snd m_pc m_st t_bad]. rewrite Nat.sub_diag.
+    repeat split; constructor.
+  - now apply fin_Data.
+Qed.
+
+Lemma fin_Hdr k hs j : (k <= n)%nat -> hs = 0 \/ hs = h -> off lay k <= fin ->
+  fin_ok k (trr_drive true head lay (mkM PcHdrSize (mkT (off lay k) hs None false)) (repeat E (5 + j))).
+Proof.
+  intros Hk Hhs Ho. change (5 + j)%nat with (S (4 + j)). cbn [repeat]. rewrite trr_drive_cons.
+  unfold trr_step. cbn [m_pc m_st]. unfold trr_observe. cbn [t_bad t_pend t_hs t_br].
+  set (guard := if hs =? 0 then head else hs).
+  assert (Hg : h <= guard) by (unfold guard; destruct Hhs as [-> | ->]; cbn;
+                                [lia|destruct (Z.eqb_spec h 0); lia]).
+  destruct (Z.geb_spec fin (off lay k + guard)) as [Hge|Hlt].
+  - assert (Hkn : (k < n)%nat) by (apply (off_room h lay h_pos k fin); lia).
+    destruct (nth_ex h lay Hlay k Hkn) as (d & Hn & Hd). rewrite (frame_at_off h lay h_pos Hlay k d Hn).
+    destruct (Z.leb_spec (off lay k + h) fin) as [_|?]; [|lia]. cbn [fst snd t_bad t_pend].
+    destruct (fin_Data k d j Hn ltac:(lia)) as (A & B & C & D).
+    unfold fin_ok. cbn [fst snd].
+    split; [exact A|]. split; [exact B|]. split.
+    + cbn [app]. constructor; [left; cbn; split; [lia|exists k; auto]|exact C].
+    + rewrite yields_app, D. reflexivity.
+  - cbn [fst snd t_bad t_pend app]. change (4 + j)%nat with (3 + (1 + j))%nat. now apply fin_Poll.
+Qed.
+
+Lemma minv_init : minv trr_m_init 0.
+Proof.
+  unfold trr_m_init, trr_init. rewrite <- (off_0 lay). apply MA; auto; [lia|].
+  rewrite off_0. exact fin_nonneg.
+Qed.
+
+(* THE theorem: whatever is on disk at each observation made while GROMACS runs (never more
+   than the final size) and wherever in the loop GROMACS is first seen to have ended (any
+   number of observations, so any program point), the generator returns, and the frames
+   handed out are exactly the [kf] frames completely on disk, each once, in order; every
+   read lies inside the bytes on disk when issued *)
+Theorem trr_every_interleaving sizes : Forall (fun s => s <= fin) sizes ->
+  m_pc (fst (trr_sched true head lay sizes fin)) = PcDone /\
+  t_bad (m_st (fst (trr_sched true head lay sizes fin))) = false /\
+  Forall ev_ok (snd (trr_sched true head lay sizes fin)) /\
+  yields (snd (trr_sched true head lay sizes fin)) = seq 0 kf.
+Proof.
+  intros Hs. unfold trr_sched, trr_world. rewrite trr_drive_app. cbn [fst snd].
+  destruct (drive_running sizes trr_m_init 0%nat minv_init Hs) as (k & Hinv & Hsafe & _ & Hy).
+  pose proof (minv_le_kf _ k Hinv) as Hlk.
+  assert (Hfin : fin_ok k (trr_drive true head lay
+                   (fst (trr_drive true head lay trr_m_init (map (fun s => (s, false)) sizes))) (repeat E 8))).
+  { destruct Hinv as [pc k hs [->| ->] Hk Hhs Ho|pc k d [->| ->] Hn Ho].
+    - change 8%nat with (3 + 5)%nat. now apply fin_Poll.
+    - change 8%nat with (5 + 3)%nat. now apply fin_Hdr.
+    - change 8%nat with (4 + 4)%nat. now apply fin_Data.
+    - change 8%nat with (6 + 2)%nat. now apply fin_GuardPoll. }
+  destruct Hfin as (A & B & C & D).
+  split; [exact A|]. split; [exact B|]. split.
+  - apply Forall_app. split; [now apply ev_safe_ok|exact C].
+  - rewrite yields_app, Hy, D. pose proof (seq_join 0 k kf (Nat.le_0_l _) Hlk) as J.
+    rewrite !Nat.sub_0_r in *. exact J.
+Qed.
+
+End TrrSched.
+
+(* ---- corollaries without the auxiliary [kf] *)
+Section TrrSchedCor.
+Variables head h : Z.
+Variable lay : layout.
+Hypothesis h_pos : 0 < h.
+Hypothesis h_head : h <= head.
+Hypothesis Hlay : lay_ok h lay.
+Local Notation n := (length lay).
+Local Notation total := (layout_size lay).
+
+(* for every final size there is exactly such a [kf] *)
+Lemma complete_frames_exist fin : 0 <= fin -> fin <= total ->
+  exists kf, (kf <= n)%nat /\ off lay kf <= fin /\ ((kf < n)%nat -> fin < off lay (S kf)).
+Proof.
+  intros H0 H1.
+  assert (Haux : forall m k, (n - k = m)%nat -> (k <= n)%nat -> off lay k <= fin ->
+                 exists kf, (kf <= n)%nat /\ off lay kf <= fin /\ ((kf < n)%nat -> fin < off lay (S kf))).
+  { induction m as [|m IH]; intros k Hm Hk Ho.
+    - exists k. split; [lia|]. split; [exact Ho|lia].
+    - destruct (Z.ltb_spec fin (off lay (S k))) as [Hlt|Hge].
+      + exists k. split; [lia|]. split; [exact Ho|]. intros _. exact Hlt.
+      + apply (IH (S k)); lia. }
+  apply (Haux (n - 0)%nat 0%nat); [reflexivity|lia|]. rewrite off_0. exact H0.
+Qed.
+
+(* GROMACS ended with code 0 at a frame boundary (it wrote [kf] whole frames) *)
+Theorem trr_every_interleaving_boundary kf sizes : (kf <= n)%nat ->
+  Forall (fun s => s <= off lay kf) sizes ->
+  m_pc (fst (trr_sched true head lay sizes (off lay kf))) = PcDone /\
+  t_bad (m_st (fst (trr_sched true head lay sizes (off lay kf)))) = false /\
+  Forall (ev_safe h lay) (snd (trr_sched true head lay sizes (off lay kf))) /\
+  yields (snd (trr_sched true head lay sizes (off lay kf))) = seq 0 kf.
+Proof.
+  intros Hkf Hs.
+  destruct (trr_every_interleaving head h lay h_pos h_head Hlay (off lay kf) kf
+              (off_le_total h lay h_pos Hlay kf) Hkf (Z.le_refl _)
+              (fun H => off_lt_S h lay h_pos Hlay kf H) sizes Hs) as (A & B & C & D).
+  split; [exact A|]. split; [exact B|]. split; [|exact D].
+  revert C. apply Forall_impl. intros e [He|[_ He]]; [exact He|lia].
+Qed.
+
+(* ... in particular when it wrote everything: no complete frame is lost, for every
+   interleaving *)
+Theorem trr_no_complete_frame_lost sizes : Forall (fun s => s <= total) sizes ->
+  m_pc (fst (trr_sched true head lay sizes total)) = PcDone /\
+  t_bad (m_st (fst (trr_sched true head lay sizes total))) = false /\
+  Forall (ev_safe h lay) (snd (trr_sched true head lay sizes total)) /\
+  yields (snd (trr_sched true head lay sizes total)) = seq 0 n.
+Proof.
+  intros Hs. rewrite <- (off_all lay) in Hs |- * at 1 2 3 4.
+  pose proof (trr_every_interleaving_boundary n sizes (Nat.le_refl _)) as T.
+  rewrite !off_all in *. exact (T Hs).
+Qed.
+
+End TrrSchedCor.
+
+Theorem trr_gromacs_no_complete_frame_lost : forall h lay,
+  h = trr_header_bytes_single \/ h = trr_header_bytes_double -> lay_ok h lay ->
+  forall sizes, Forall (fun s => s <= layout_size lay) sizes ->
+  m_pc (fst (trr_sched true trr_head_size lay sizes (layout_size lay))) = PcDone /\
+  Forall (ev_safe h lay) (snd (trr_sched true trr_head_size lay sizes (layout_size lay))) /\
+  yields (snd (trr_sched true trr_head_size lay sizes (layout_size lay))) = seq 0 (length lay).
+Proof.
+  intros h lay Hh Hlay sizes Hs.
+  destruct (trr_header_fits h Hh) as [H0 H1].
+  destruct (trr_no_complete_frame_lost trr_head_size h lay H0 H1 Hlay sizes Hs) as (A & _ & C & D).
+  auto.
+Qed.
+
+(* deciding with the size read BEFORE check_poll() (no second getsize after learning that
+   GROMACS has ended) loses complete frames: header of frame 0 read with 1000 bytes on disk,
+   data not yet complete, GROMACS writes the rest (both frames) and exits before the poll *)
+Theorem trr_stale_size_refuted :
+  exists lay sizes, lay_ok trr_header_bytes_single lay /\
+    Forall (fun s => s <= layout_size lay) sizes /\
+    m_pc (fst (trr_sched false trr_head_size lay sizes (layout_size lay))) = PcDone /\
+    yields (snd (trr_sched false trr_head_size lay sizes (layout_size lay))) = [] /\
+    yields (snd (trr_sched true trr_head_size lay sizes (layout_size lay))) = [0%nat; 1%nat].
+Proof.
+  exists [(84, 1000); (84, 1000)], [1000; 1000; 1000]. split; [|split].
+  - repeat constructor; cbn; lia.
+  - repeat constructor; cbn; lia.
+  - vm_compute. auto.
+Qed.
